@@ -75,20 +75,37 @@ def check_repeat(ctx):
         return
     ctx.check(same(strip_state(rx), ty) is False and veq(arr_term(strip_state(rx)), arr_term(tx)), 'C12.1', 'x result starts as tile(x, repeats)',
               show(arr_term(strip_state(rx)), 200), fi.loc(), fi.qualname, 'x-tile')
-    ctx.check(len(stores) == 1, 'C12.2', 'exactly one in-place store statement', f"{len(stores)} stores", fi.loc(), fi.qualname, 'one-store')
+    if any(e.data.get('view_unknown') for e in stores):
+        ctx.unknown('C12.2', 'offset construction', 'the copies are updated in place through views (rows of a reshaped array, ...) that this rule does not follow: '
+                                                    'construction not recognised', fi.loc(), fi.qualname, 'skeleton')
+        return
+    # recognised skeleton: one store, inside one loop over the copies, into a slice of exactly one copy's width of the tiled x
+    skeleton = len(stores) == 1 and len(stores[0].loops) == 1 and stores[0].loops[0].kind == 'range' and stores[0].loops[0].lo is not None \
+        and stores[0].loops[0].hi is not None and isinstance(stores[0].data['index'], Term) and stores[0].data['index'].head == 'slice'
+    if skeleton:
+        sl = stores[0].data['index']
+        skeleton = isinstance(sl.args[0], Num) and isinstance(sl.args[1], Num) and (sl.args[1].r - sl.args[0].r == L) and isinstance(sl.args[2], Const)
+    if not skeleton:
+        ctx.unknown('C12.2', 'offset construction', f"repeat does not shift the copies with one in-place update of one copy per loop iteration ({len(stores)} store(s), loops "
+                    f"{[[l.kind for l in e.loops] for e in stores]}): construction not recognised", fi.loc(), fi.qualname, 'skeleton')
+        return
     for e in stores:
         inst = f"store at {e.loc()}"
-        ok_loop = len(e.loops) == 1 and e.loops[0].kind == 'range' and e.loops[0].lo == C(1) and e.loops[0].hi == r.r
-        ctx.check(ok_loop, 'C12.2', inst + ': inside `for i in range(1, repeats)` (copy 0 is never shifted, every other copy once)',
-                  f"loops {[(l.kind, sym.show(l.lo) if l.lo is not None else None, sym.show(l.hi) if l.hi is not None else None) for l in e.loops]}", e.loc(), fi.qualname,
-                  'loop')
+        lp = e.loops[0]
+        j = lp.sym
+        idx = e.data['index']
+        # the copy written in iteration j: i(j) = slice start / n; it has to run through 1, 2, ..., repeats - 1
+        i = idx.args[0].r / L
+        i_first = sym.subst(i, {_atom1(j): lp.lo})
+        i_last = sym.subst(i, {_atom1(j): lp.hi - C(1)})
+        step_ok = sym.subst(i, {_atom1(j): j + C(1)}) - i == C(1)
+        ok_loop = step_ok and i_first == C(1) and i_last == r.r - C(1)
+        ctx.check(ok_loop, 'C12.2', inst + ': the loop shifts copy 1, 2, ..., repeats - 1, each once (copy 0 is never shifted)',
+                  f"copy index {sym.show(i)} for the loop variable in [{sym.show(lp.lo)}, {sym.show(lp.hi)}): first {sym.show(i_first)}, last {sym.show(i_last)}",
+                  e.loc(), fi.qualname, 'loop')
         if not ok_loop:
             continue
-        i = e.loops[0].sym
-        idx = e.data['index']
-        ok_idx = isinstance(idx, Term) and idx.head == 'slice' and isinstance(idx.args[0], Num) and isinstance(idx.args[1], Num) \
-            and idx.args[0].r == L * i and idx.args[1].r == L * (i + C(1)) and isinstance(idx.args[2], Const)
-        ctx.check(ok_idx, 'C12.2', inst + ': the slice is exactly copy i: [n*i : n*(i+1)] with n = len(x)', show(idx, 160), e.loc(), fi.qualname, 'slice')
+        ok_idx = True
         base = e.data['base']
         ctx.check(veq(arr_term(strip_state(base)), arr_term(tx)), 'C12.2', inst + ': the array written is the tiled x', show(arr_term(strip_state(base)), 120),
                   e.loc(), fi.qualname, 'base')
@@ -199,6 +216,11 @@ def _flat_value(ev, v, k: Rat, n: Rat):
         return term_elem(nv, k)
     except Exception:
         return None
+
+
+def _atom1(r_: Rat) -> int:
+    (m_, c_), = r_.n.t.items()
+    return m_[0][0]
 
 
 def _ref_of(n: Num):
